@@ -264,3 +264,20 @@ def drive(engine, mon, calls, budget_fn):
             return False, e
         mon.end_call()
     return True, None
+
+
+def superseded_rows(events):
+    """One flag per history row in the event log: True when the next row carries the same time and was
+    emitted during a forced call over an empty interval (such a call completes, at the current global time,
+    processes that an earlier unforced call left behind; when that time already has a row, the engine emits
+    a second one for it - the second row is the complete one)."""
+    rows = []
+    in_empty_forced = False
+    for ev in events:
+        if ev[0] == 'call':
+            in_empty_forced = bool(ev[3]) and ev[2] == 0
+        elif ev[0] == 'ret':
+            in_empty_forced = False
+        elif ev[0] == 'emit' and ev[1] == 'history':
+            rows.append((ev[2], in_empty_forced))
+    return [i + 1 < len(rows) and rows[i + 1][0] == t and rows[i + 1][1] for i, (t, _) in enumerate(rows)]
